@@ -54,12 +54,12 @@ func (e *Env) declare(name string, konst bool) *binding {
 
 // frame: one function activation.
 type frame struct {
-	in    *Interp
-	fn    *Func
-	this  Value
-	args  []Value
-	co    *coroutine // generator / async activation
-	async bool
+	in       *Interp
+	fn       *Func
+	this     Value
+	args     []Value
+	co       *coroutine // generator / async activation
+	async    bool
 	asyncCap *capability
 	// evidence
 	tryDepth int
@@ -920,6 +920,16 @@ func (fr *frame) eval(e Expr, env *Env) (Value, *Abrupt) {
 		return float64(len(fr.args)), nil
 	case *Yield:
 		return fr.evalYield(x, env)
+	case *AwRaw:
+		v, ab := fr.eval(x.Arg, env)
+		if ab != nil {
+			return nil, ab
+		}
+		if fr.async {
+			in.stat("async_return_of_awaitable")
+			return in.aw(x.Site, v), nil
+		}
+		return v, nil
 	case *Bin:
 		l, ab := fr.eval(x.L, env)
 		if ab != nil {
